@@ -79,7 +79,7 @@ MUT = (10, 11, 20, 21, 22, 30, 40, 41, 50)
 def has_state(o):
     """a STATE op follows every mutating op, except a write attempted through a read-only collection (it faults; what
     the handle keeps in memory afterwards is not compared)"""
-    return o['op'] in MUT and not o.get('ro')
+    return o['op'] in MUT and not o.get('ro') and not o.get('nostate')
 
 
 def op_toks(o):
